@@ -2,9 +2,6 @@ NA_REASONS = {
     'C08': 'statistics: floating-point results and thread schedules are the subject; the engine has no floating-point '
            'reasoning beyond integer-valued doubles and no concurrency; the narrow integer general_stat fragment was not '
            'built in this round, so nothing is claimed',
-    'C11': 'keep_intervals/delete_intervals/trim/delete_sites are numpy array programs over C-extension tables (CrossHair '
-           'realises every value at those boundaries); the C mechanisms (split_edges, delete_older, extend_haplotypes) are '
-           'encodable with llsym but no harness has been built yet',
     'C17': 'parse_* / dump_text convert symbolic strings to int/float and Base64 through C-implemented codecs which '
            'CrossHair realises (inconclusive on str->float and binascii); no sound check could be built in this round',
 }
